@@ -1,12 +1,13 @@
 import Lean.Data.Json
 import SkopsModel.Card.Ops
+import SkopsModel.Markup.Parser
 /-!
 Line-protocol driver: one JSON object per input line, one JSON object per output line.
 This file is glue (JSON decoding/encoding only); every decision is taken by the model functions.
 -/
-open Lean Skops Skops.Card
+open Lean Skops Skops.Card Skops.Markup
 
-structure St where
+structure DSt where
   card : Card := {}
 
 def jStr (j : Json) (k : String) : String := (j.getObjValAs? String k).toOption.getD ""
@@ -37,7 +38,7 @@ def asTable (j : Json) : Table :=
 def jPairs (j : Json) (k : String) : List (String × String) := (jArr j k).map asPair
 def jStrs (j : Json) (k : String) : List String := (jArr j k).map asStr
 
-def errName : Err → String
+def errName : Card.Err → String
   | .keyError => "KeyError" | .valueError => "ValueError" | .typeError => "TypeError"
 
 def outJson : Out → Json
@@ -73,9 +74,95 @@ def cardOp (j : Json) (name : String) : Option Op :=
   | "save" => some .save
   | _ => none
 
+
+/-! ## pandoc JSON → `Item` (glue; malformed shapes become `.other`) -/
+
+instance : Inhabited Items := ⟨Items.nil⟩
+instance : Inhabited ItemsList := ⟨ItemsList.nil⟩
+instance : Inhabited Item := ⟨Item.space⟩
+
+def jIdx (j : Json) (i : Nat) : Json := (asList j).getD i Json.null
+
+mutual
+partial def decItems (j : Json) : Items :=
+  (asList j).foldr (fun x acc => Items.cons (decItem x) acc) Items.nil
+partial def decItemsList (j : Json) : ItemsList :=
+  (asList j).foldr (fun x acc => ItemsList.cons (decItems x) acc) ItemsList.nil
+partial def decItem (j : Json) : Item :=
+  match j with
+  | .str s => .raw s
+  | _ =>
+    let t := jStr j "t"
+    let c := (j.getObjVal? "c").toOption.getD Json.null
+    match t with
+    | "Space" => .space
+    | "SoftBreak" => .softBreak
+    | "LineBreak" => .lineBreak
+    | "Str" => .str (asStr c)
+    | "Plain" => .plain (decItems c)
+    | "Para" => .para (decItems c)
+    | "Strong" => .strong (decItems c)
+    | "Emph" => .emph (decItems c)
+    | "Strikeout" => .strikeout (decItems c)
+    | "RawInline" => .rawInline (asStr (jIdx c 1))
+    | "RawBlock" => .rawBlock (asStr (jIdx c 1))
+    | "Header" => .header ((jIdx c 0).getNat?.toOption.getD 0) (decItems (jIdx c 2))
+    | "Image" => .image (decItems (jIdx c 1)) (asStr (jIdx (jIdx c 2) 0)) (asStr (jIdx (jIdx c 2) 1))
+    | "CodeBlock" => .codeBlock ((asList (jIdx (jIdx c 0) 1)).map asStr) (asStr (jIdx c 1))
+    | "Code" => .code (asStr (jIdx c 1))
+    | "Table" =>
+      if (asList c).length = 6 then
+        -- pandoc >= 2.10: attr capt specs thead tbody tfoot
+        let theadBody := jIdx (jIdx (jIdx (jIdx c 3) 1) 0) 1
+        let cols := (asList theadBody).foldr
+          (fun cell acc => Items.cons (.plain (decItems (jIdx cell 4))) acc) Items.nil
+        let trows := jIdx (jIdx (jIdx c 4) 0) 3
+        let rows := (asList trows).foldr (fun row acc =>
+          ItemsList.cons ((asList (jIdx row 1)).foldr
+            (fun cell acc2 => Items.cons (.plain (decItems (jIdx cell 4))) acc2) Items.nil) acc) ItemsList.nil
+        .table cols rows
+      else
+        let cols := (asList (jIdx c 3)).foldr (fun cell acc => Items.cons (decItem (jIdx cell 0)) acc) Items.nil
+        let rows := (asList (jIdx c 4)).foldr (fun row acc =>
+          ItemsList.cons ((asList row).foldr (fun cell acc2 =>
+            Items.cons (if (asList cell).isEmpty then .raw "" else decItem (jIdx cell 0)) acc2) Items.nil) acc)
+          ItemsList.nil
+        .table cols rows
+    | "Div" =>
+      let attr := jIdx c 0
+      .div (asStr (jIdx attr 0)) ((asList (jIdx attr 1)).map asStr) ((asList (jIdx attr 2)).map asPair)
+        (decItems (jIdx c 1))
+    | "Link" => .link (decItems (jIdx c 1)) (asStr (jIdx (jIdx c 2) 0))
+    | "BulletList" => .bulletList (decItemsList c)
+    | "OrderedList" => .orderedList ((jIdx (jIdx c 0) 0).getNat?.toOption.getD 0) (decItemsList (jIdx c 1))
+    | "Quoted" => .quoted (jStr (jIdx c 0) "t") (decItems (jIdx c 1))
+    | "BlockQuote" => .blockQuote (decItems c)
+    | other => .other other
+end
+
+def strArr (xs : List String) : Json := Json.arr (xs.map Json.str).toArray
+
+/-- convert the items one after the other on ONE Markdown instance -/
+def mdConvAll : List Item → Markup.St → List Json × Markup.St
+  | [], st => ([], st)
+  | x :: xs, st =>
+    let r := conv x st
+    let o := match r.1 with
+      | .ok s => Json.mkObj [("ok", s)]
+      | .error _ => Json.mkObj [("err", "ValueError")]
+    let rest := mdConvAll xs r.2
+    (o :: rest.1, rest.2)
+
+partial def forestJson (prefixPath : List String) : Forest → List Json
+  | .nil => []
+  | .cons k s ch rest =>
+    let p := prefixPath ++ [k]
+    Json.mkObj [("path", strArr p), ("title", s.title), ("content", s.content)]
+      :: (forestJson p ch ++ forestJson prefixPath rest)
+
 def badOp : Json := Json.mkObj [("r", "bad-op")]
 
-def handle (st : St) (j : Json) : St × Json :=
+def handle (st : DSt) (j : Json) : DSt × Json :=
   let op := jStr j "op"
   if op = "card.new" then ({ st with card := {} }, Json.mkObj [("r", "ok")])
   else if op.startsWith "card." then
@@ -84,6 +171,16 @@ def handle (st : St) (j : Json) : St × Json :=
       let r := step st.card o
       ({ st with card := r.1 }, outJson r.2)
     | none => (st, badOp)
+  else if op = "md.conv" then
+    let items := (jArr j "items").map decItem
+    let r := mdConvAll items []
+    (st, Json.mkObj [("r", "md"), ("out", Json.arr r.1.toArray),
+                     ("stack", Json.arr (r.2.map fun (n : Nat) => (n : Json)).toArray)])
+  else if op = "parse" then
+    match generate ((jArr j "blocks").map decItem) with
+    | .ok f => (st, Json.mkObj [("r", "card"), ("sections", Json.arr (forestJson [] f).toArray),
+                                ("toc", toc f), ("render", render f)])
+    | .error _ => (st, Json.mkObj [("r", "err"), ("e", "ValueError")])
   else if op = "split" then
     (st, Json.mkObj [("r", "list"), ("v", Json.arr ((split (jStr j "key")).map Json.str).toArray)])
   else if op = "ws" then
@@ -91,7 +188,7 @@ def handle (st : St) (j : Json) : St × Json :=
     (st, Json.mkObj [("r", "list"), ("v", Json.arr (pySpaceCodes.map fun (n : Nat) => (n : Json)).toArray)])
   else (st, badOp)
 
-partial def loop (h : IO.FS.Stream) (out : IO.FS.Stream) (st : St) : IO Unit := do
+partial def loop (h : IO.FS.Stream) (out : IO.FS.Stream) (st : DSt) : IO Unit := do
   let line ← h.getLine
   if line.isEmpty then return ()
   let (st', res) :=
